@@ -59,6 +59,7 @@ func (e *Engine) initTimeStubs() {
 			}
 		}
 		th.OthersStepped = false
+		th.HasSlept = true
 		if th.Slept == nil {
 			th.Slept = tb.Int64(0)
 		}
